@@ -112,6 +112,82 @@ pub struct UnitResult {
     pub slow_ms: u128,
 }
 
+/// The dictionary every front-end really lints with is a MERGED one (curated + the user's words +,
+/// for source files, the identifiers of the file): `MutableDictionary`'s own code paths (its fuzzy
+/// search runs the `u8` edit distance behind a length window) are reached only through it. Plain
+/// English and Markdown documents with very long words, words near the user's words, hostile
+/// characters; `Document::new` and the curated rules over `MergedDictionary[curated, user]`.
+fn merged_stream(sess: &mut Session, ctx: &Ctx, rng: &mut Rng, only: Option<(String, bool)>) {
+    use harper_core::parsers::{Markdown, PlainEnglish};
+    use harper_core::{MergedDictionary, MutableDictionary, WordMetadata};
+    use std::sync::Arc;
+    let user_words = ["hello", "zqident", "Zqxvword", "o'zq", "naïvetéx", "ab", "abcdefghijklmnopqrstuvwxyzabcdefghijklmnopqrstuvwxyz"];
+    let mk = move || {
+        let mut user = MutableDictionary::new();
+        for w in user_words {
+            user.append_word_str(w, WordMetadata::default());
+        }
+        let mut m = MergedDictionary::new();
+        m.add_dictionary(FstDictionary::curated());
+        m.add_dictionary(Arc::new(user));
+        Arc::new(m)
+    };
+    let mut texts: Vec<String> = vec![];
+    // every word length around the u8 boundaries (the window of the fuzzy search is ± 3 letters)
+    for n in (245..=275).chain(505..=520).chain([1000, 1023, 1024, 1025, 4096]) {
+        texts.push(format!("The value is {} here.", "a".repeat(n)));
+        if n % 3 == 0 {
+            texts.push(format!("{} {}", "hellox".repeat(n / 6 + 1).chars().take(n).collect::<String>(), "Ab".repeat(n / 2)));
+        }
+    }
+    for w in user_words {
+        texts.push(format!("We saw {}x and {} and x{} today.", w, w.to_uppercase(), w));
+    }
+    let nrand = if ctx.tier == Tier::Thorough { 600 } else { 60 };
+    for _ in 0..nrand {
+        let mut t = textgen::text(rng);
+        if rng.chance(1, 3) {
+            t.push(' ');
+            t.push_str(&"é".repeat(rng.range(250, 270)));
+        }
+        texts.push(t);
+    }
+    let only_md = only.as_ref().map(|o| o.1);
+    if let Some((t, _)) = only {
+        texts = vec![t];
+    }
+    let results = par_map(texts.len(), 16, |i| {
+        let text = texts[i].clone();
+        let md = only_md.unwrap_or(i % 4 == 3);
+        let t2 = text.clone();
+        let r = with_timeout(30000, move || {
+            guarded(|| {
+                let dict = mk();
+                let doc = if md { Document::new(&t2, &Markdown::default(), &dict) } else { Document::new(&t2, &PlainEnglish, &dict) };
+                let mut g = LintGroup::new_curated(dict.clone(), Dialect::American);
+                g.config.fill_with_curated();
+                g.lint(&doc).len()
+            })
+        });
+        (text, md, r)
+    });
+    for (text, md, r) in results {
+        sess.o();
+        sess.count("origin:merged-dictionary");
+        let inp = json!({"frontend": if md { "markdown+merged-dictionary" } else { "plaintext+merged-dictionary" }, "text": text, "user_words": user_words});
+        match r {
+            None => sess.fail("hang", format!("Document::new + lint over a merged dictionary did not finish within 30 s on a {}-char text", text.chars().count()), inp, None),
+            Some(Ok(Err(m))) => sess.fail(&classify(&m, &text), format!("Document::new + lint over MergedDictionary[curated, user] panicked: {}", m), inp, None),
+            Some(Err(m)) => sess.fail("harness-panic", m, inp, None),
+            Some(Ok(Ok(_))) => {
+                if text.chars().count() > 250 {
+                    sess.nontrivial(&format!("merged|{}", text.chars().count()));
+                }
+            }
+        }
+    }
+}
+
 /// all prefixes of one text through one front-end, on a watchdog thread
 pub fn run_unit(job: &Job, prefs: &[String]) -> UnitResult {
     let j = job.clone();
@@ -204,6 +280,13 @@ pub fn run(ctx: &Ctx) {
             return;
         }
         let front = v["frontend"].as_str().unwrap_or("plaintext").to_string();
+        if front.ends_with("+merged-dictionary") {
+            merged_stream(&mut sess, ctx, &mut rng, Some((v["text"].as_str().unwrap_or("").to_string(), front.starts_with("markdown"))));
+            sess.nontrivial("replay-a");
+            sess.nontrivial("replay-b");
+            sess.finish("replay of one recorded merged-dictionary input", false, json!({}));
+            return;
+        }
         let job = Job {
             id: front.split('+').next().unwrap().to_string(),
             ilt: front.contains("+ilt"),
@@ -229,6 +312,7 @@ pub fn run(ctx: &Ctx) {
     // ---- K: the real leaf patterns and the generic rule constructions, see leaves.rs ------------
     crate::leaves::run_into(&mut sess, ctx, &mut rng);
     crate::prules::run_into(&mut sess, ctx, &mut rng);
+    merged_stream(&mut sess, ctx, &mut rng, None);
     crate::rules2::run_into(&mut sess, ctx, &mut rng);
     crate::mrules::run_into(&mut sess, ctx, &mut rng);
     // ---- jobs --------------------------------------------------------------------------------
@@ -349,7 +433,7 @@ pub fn run(ctx: &Ctx) {
         }
     }
     sess.finish(
-        &(crate::c01_pattern::RULE.to_string() + " || " + crate::leaves::RULE + " || " + crate::prules::RULE + " || " + crate::rules2::RULE + " || " + crate::mrules::RULE + " || O: Document::new + LintGroup::lint (curated default / all rules on / a fixed half of the rules; 4 dialects; long-lived per-thread groups) on every language id of the server's table (also wrapped in CollapseIdentifiers / IsolateEnglish), for every prefix (every character for texts ≤200 chars, token boundaries ±1 beyond; some with trailing whitespace) of: the corpus of past crash witnesses, rule-test sentences embedded in language-appropriate syntax and mutated, random code points, and the repo's fixtures. A panic or a watchdog timeout is a failure; the class is the panic's source location. Growth: parse+lint time at n,2n,4n,8n for 10 pathological families; exponent > 3.2 fails. Non-trivial = a unit with > 20 prefixes; distinct by (front-end, text)."),
+        &(crate::c01_pattern::RULE.to_string() + " || " + crate::leaves::RULE + " || " + crate::prules::RULE + " || " + crate::rules2::RULE + " || " + crate::mrules::RULE + " || O: the same over MergedDictionary[curated, user] on plain / Markdown texts with words of 245–275, 505–520, 1000–4096 letters || O: Document::new + LintGroup::lint (curated default / all rules on / a fixed half of the rules; 4 dialects; long-lived per-thread groups) on every language id of the server's table (also wrapped in CollapseIdentifiers / IsolateEnglish), for every prefix (every character for texts ≤200 chars, token boundaries ±1 beyond; some with trailing whitespace) of: the corpus of past crash witnesses, rule-test sentences embedded in language-appropriate syntax and mutated, random code points, and the repo's fixtures. A panic or a watchdog timeout is a failure; the class is the panic's source location. Growth: parse+lint time at n,2n,4n,8n for 10 pathological families; exponent > 3.2 fails. Non-trivial = a unit with > 20 prefixes; distinct by (front-end, text)."),
         false,
         json!({"growth": growth_rows, "slowest_unit_ms": slowest as u64, "language_ids": ids}),
     );
